@@ -139,6 +139,23 @@ def wl_exhaustive_ascii(ctx, rng, case):
     case.nontrivial = True
 
 
+def wl_exhaustive_3bytes(ctx, rng, case):
+    """thorough tier only: ALL 16 777 216 three-byte keys (case index = first two bytes) against the independent FNV-1a 64/32, seeds 0 and 5"""
+    from probables import hashes as H
+
+    a, b = case.index >> 8, case.index & 0xFF
+    case.desc = {"kind": "all 3-byte keys", "prefix": [a, b]}
+    f64, f32, r64, r32 = H.fnv_1a, H.fnv_1a_32, refimpl.fnv1a_64, refimpl.fnv1a_32
+    for c in range(256):
+        k = bytes((a, b, c))
+        if f64(k) != r64(k) or f64(k, 5) != r64(k, 5) or f32(k) != r32(k) or f32(k, 5) != r32(k, 5):
+            ctx.fail("FNV-1a differs from the reference on a 3-byte key", key=k)
+    ctx.counters["oracle_evaluations"] += 1024
+    ctx.count("keys_checked_against_reference_fnv", 256)
+    ctx.count("three_byte_keys_checked", 256)
+    case.nontrivial = True
+
+
 def wl_vectors(ctx, rng, case):
     """published FNV-1a vectors"""
     from probables import hashes as H
@@ -227,7 +244,8 @@ PROP = Prop(
         Workload("vectors", wl_vectors, quick=1, thorough=1),
         Workload("bytes_le2", wl_exhaustive_bytes, quick=257, thorough=257, exhaustive=True),
         Workload("ascii_le2", wl_exhaustive_ascii, quick=129, thorough=129, exhaustive=True),
-        Workload("random", wl_random, quick=150, thorough=6000),
+        Workload("random", wl_random, quick=150, thorough=60000),
+        Workload("bytes_eq3", wl_exhaustive_3bytes, quick=0, thorough=65536, exhaustive=True),
     ],
     assumptions=["reference FNV-1a written from the published definition (offset basis, prime, xor-then-multiply)",
                  "C reference compiled with clang -fsanitize=address,undefined"],
